@@ -269,6 +269,7 @@ class DetSched(object):
     self.select = _SelectShim(self)
     self.os = _OsShim(self)
     self._pipes = {}          # virtual fd -> (_VPipe, "r" | "w")
+    self._nonblocking_fds = set()   # virtual fds switched to O_NONBLOCK with os.set_blocking(fd, False)
 
   # ---- public helpers ------------------------------------------------------------------------
   def make_pinger(self):
@@ -734,6 +735,8 @@ class _OsShim(object):
       return _real_os.read(fd, n)
     p = self._end(fd, "r")
     if not p.readable():
+      if fd in self._ds._nonblocking_fds:
+        raise BlockingIOError(11, "Resource temporarily unavailable (virtual fd %r)" % (fd,))
       p.empty_reads += 1
       self._ds.block(p.readable, None, "os.read(fd=%d) on an empty pipe" % fd)
     d = bytes(p.buf[:n])
@@ -747,11 +750,23 @@ class _OsShim(object):
     if not p.r_open:
       raise BrokenPipeError(32, "Broken pipe (virtual fd %r)" % (fd,))
     if not p.writable():
+      if fd in self._ds._nonblocking_fds:
+        raise BlockingIOError(11, "Resource temporarily unavailable (virtual fd %r)" % (fd,))
       self._ds.block(p.writable, None, "os.write(fd=%d) on a full pipe" % fd)
     k = min(len(data), p.CAPACITY - len(p.buf)) if p.r_open else len(data)
     p.buf += bytes(data[:k])
     p.written += k
     return k
+
+  def set_blocking(self, fd, flag):
+    if fd not in self._ds._pipes:
+      return _real_os.set_blocking(fd, flag)
+    (self._ds._nonblocking_fds.discard if flag else self._ds._nonblocking_fds.add)(fd)
+
+  def get_blocking(self, fd):
+    if fd not in self._ds._pipes:
+      return _real_os.get_blocking(fd)
+    return fd not in self._ds._nonblocking_fds
 
   def close(self, fd):
     e = self._ds._pipes.get(fd)
